@@ -2,6 +2,11 @@ package main
 
 // Model of github.com/mhmtszr/concurrent-swiss-map: a linearizable association
 // list; every operation is one atomic step preceded by a scheduling point.
+// SetIf runs its condition callback under the key's shard lock as the library
+// does: while the callback runs (it may contain scheduling points of its own)
+// every other operation on the same key of the same map waits. The lock is
+// modelled per key (the library's is per shard, i.e. coarser: the model allows
+// a superset of the real interleavings); a symbolic key holds the whole map.
 // Range runs f inline over a snapshot of the entries, in insertion order.
 
 import (
@@ -25,6 +30,54 @@ func csmapOf(m *Machine, v Value) *Map {
 	return op.Data.(*Map)
 }
 
+func csKey(k Value) (uint64, bool) {
+	if t, ok := k.(*Term); ok && t.IsConst() {
+		return t.C, true
+	}
+	return 0, false
+}
+
+// csWait blocks the calling thread while another thread holds the key (or the whole map).
+func (m *Machine) csWait(mp *Map, k Value) {
+	kv, conc := csKey(k)
+	m.block("csmap shard lock", 0, func() bool {
+		if mp.heldAll != nil && mp.heldAll != m.cur {
+			return false
+		}
+		if !conc {
+			for _, t := range mp.heldKey {
+				if t != m.cur {
+					return false
+				}
+			}
+			return true
+		}
+		t := mp.heldKey[kv]
+		return t == nil || t == m.cur
+	})
+}
+
+func (m *Machine) csHold(mp *Map, k Value) func() {
+	m.csWait(mp, k)
+	if kv, conc := csKey(k); conc {
+		if mp.heldKey == nil {
+			mp.heldKey = map[uint64]*Thread{}
+		}
+		prev := mp.heldKey[kv]
+		mp.heldKey[kv] = m.cur
+		return func() {
+			if prev == nil {
+				delete(mp.heldKey, kv)
+			} else {
+				mp.heldKey[kv] = prev
+			}
+		}
+	}
+	prev := mp.heldAll
+	mp.heldAll = m.cur
+	return func() { mp.heldAll = prev }
+}
+
 func registerCsmap() {
 	intrinsicTable[csmapPkg+".Create"] = func(m *Machine, c *frame, f *ssa.Function, a []Value) Value {
 		// result *CsMap[K,V]; K is the first type argument
@@ -44,6 +97,7 @@ func registerCsmap() {
 	intrinsicTable[meth("Load")] = func(m *Machine, c *frame, f *ssa.Function, a []Value) Value {
 		m.yield("csmap.Load")
 		mp := csmapOf(m, a[0])
+		m.csWait(mp, a[1])
 		if e := m.mapFind(mp, a[1]); e != nil {
 			return Tuple{copyVal(e.V), m.tt.True}
 		}
@@ -51,16 +105,19 @@ func registerCsmap() {
 	}
 	intrinsicTable[meth("Has")] = func(m *Machine, c *frame, f *ssa.Function, a []Value) Value {
 		m.yield("csmap.Has")
+		m.csWait(csmapOf(m, a[0]), a[1])
 		return m.tt.Bool(m.mapFind(csmapOf(m, a[0]), a[1]) != nil)
 	}
 	intrinsicTable[meth("Store")] = func(m *Machine, c *frame, f *ssa.Function, a []Value) Value {
 		m.yield("csmap.Store")
+		m.csWait(csmapOf(m, a[0]), a[1])
 		m.mapSet(csmapOf(m, a[0]), a[1], a[2])
 		return nil
 	}
 	intrinsicTable[meth("Delete")] = func(m *Machine, c *frame, f *ssa.Function, a []Value) Value {
 		m.yield("csmap.Delete")
 		mp := csmapOf(m, a[0])
+		m.csWait(mp, a[1])
 		had := m.mapFind(mp, a[1]) != nil
 		if had {
 			m.mapDelete(mp, a[1])
@@ -74,6 +131,8 @@ func registerCsmap() {
 	intrinsicTable[meth("SetIf")] = func(m *Machine, c *frame, f *ssa.Function, a []Value) Value {
 		m.yield("csmap.SetIf")
 		mp := csmapOf(m, a[0])
+		release := m.csHold(mp, a[1])
+		defer release()
 		e := m.mapFind(mp, a[1])
 		var prev Value
 		found := e != nil
